@@ -143,16 +143,15 @@ pub fn verif_cursor(v: Vec<u8>) -> (r: VerifCursor) ensures cursor_rest(&r) == v
 //@endfn
 
 pub open spec fn no_body_status(s: u16) -> bool { (100 <= s && s <= 199) || s == 204 || s == 304 }
-/// C05, first sentence, for requests without a TE header (proved by K-CTE on the real function)
-spec fn cte_table(status: u16, v: HTTPVersion, len: Option<usize>, thr: usize) -> bool {
-    lex_cmp((v.0, v.1), (1, 0)) == Ordering::Greater && status >= 200 && status != 204 && (len is None || len->Some_0 >= thr)
-}
+//@include contracts/cte_table.inc
 //@fn src/response.rs choose_transfer_encoding ret r
 //@assume
 //@spec
     ensures
-        // proved by the Kani harness K-CTE (complete) for requests without a TE header; with a TE header: not constrained
-        !has_hdr(request_headers@, "TE"@) ==> ((r is Chunked) == cte_table(status_code.0, *http_version, *entity_length, chunked_threshold)),
+        // both clauses are PROVED on the real body in U-CTE (tools/linkcheck.py compares the texts); K-CTE (Kani) re-proves
+        // the second one independently for requests without headers
+        lex_cmp((http_version.0, http_version.1), (1, 0)) != Ordering::Greater || status_code.0 < 200 || status_code.0 == 204 ==> r is Identity,
+        !has_hdr(request_headers@, "TE"@) && !has_additional_headers ==> ((r is Chunked) == cte_table(status_code.0, *http_version, *entity_length, chunked_threshold)),
 //@endfn
 
 impl<R> Response<R> {
